@@ -66,7 +66,7 @@ def chunk_encode(rng, data, style):
     return bytes(out), boundaries
 
 
-HEADER_STYLES = ['canonical', 'lowercase', 'uppercase', 'nospace', 'extraspace', 'fold', 'dup', 'lf', 'emptyvalue']
+HEADER_STYLES = ['canonical', 'lowercase', 'uppercase', 'nospace', 'extraspace', 'fold', 'dup', 'lf', 'emptyvalue', 'blankfold']
 
 
 def format_head(status, reason, fields, style, version='HTTP/1.1'):
@@ -81,6 +81,10 @@ def format_head(status, reason, fields, style, version='HTTP/1.1'):
         flds.insert(0, ('X-Empty', ''))
     if style == 'fold':
         flds.insert(0, ('X-Folded', 'first\r\n  second\r\n\tthird'))
+    if style == 'blankfold':
+        # a folded field whose continuation line holds white space only (obs-fold = CRLF 1*( SP / HTAB )): still inside
+        # the header block, wherever it stands among the framing fields
+        flds.insert(len(flds) // 2, ('X-Folded', 'first\r\n \t\r\n\tlast'))
     for name, value in flds:
         if style == 'lowercase':
             name = name.lower()
